@@ -70,6 +70,12 @@ type Config struct {
 	// one lost, which keeps the audio builder's buffer non-empty.
 	PreA     int `json:"prea,omitempty"`
 	PreALoss int `json:"prealoss,omitempty"`
+	// Viewer: the recorder shares the publisher's writer with a viewer that
+	// comes first: every video packet buffer is handed to a real
+	// rtpDownTrack (below the top temporal layer, one packet withheld, so that
+	// it renumbers what it forwards) and then, the same buffer, to the
+	// recorder -- as rtpWriterLoop does.
+	Viewer bool `json:"viewer,omitempty"`
 }
 
 const (
